@@ -208,6 +208,12 @@ func runC12(e *core.Env) {
 			if x, ok := withAppended(d, longLineText(r, r.PickInt(65536, 70000))); ok {
 				d = x
 			}
+		case 2, 3, 4, 5, 6, 7: // a record three to four centuries away from the others (spans beyond what a time.Duration can hold)
+			if fy := today.Y - r.Range(293, 400); fy >= 0 {
+				if x, ok := withAppended(d, fmt.Sprintf("%04d-%02d-%02d\n    1h long ago\n", fy, r.Range(1, 12), r.Range(1, 28))); ok {
+					d = x
+				}
+			}
 		}
 		f := writeFile(e.Dir, "c12.klg", d.Text)
 		inFiles := []string{f}
@@ -286,8 +292,8 @@ func c12Check(e *core.Env, r *core.Rand, d *gen.Out, f string, inFiles []string,
 				hi = dd
 			}
 		}
-		if hi-lo > 3000 {
-			fill = false
+		if hi-lo > 3000 && !((agg == "y" || agg == "q") && hi-lo <= 150000) {
+			fill = false // (day-by-day filling of long spans is legitimately slow; years and quarters over up to ~400 years are driven)
 		}
 	}
 	fa, _, ok := buildFilterArgs(q)
